@@ -720,4 +720,261 @@ theorem feedPre_mixed (P : Params Tls) (dcid0 : Bytes) (s : St Tls) (hi : HsInv 
   · exact feedPre_hs H _ dcid0 _ s hi
 
 end Mixed
+section MixedFeed
+variable (maskFn : Dissect.MaskFn) (H : Crypto.Prims) (Pc : Cipher.Prims) (info : Nat → Pipeline.Info)
+
+/-- the part of `output_buffer` that is exported without `-a` -/
+def expo (l : List Out) : List Out := l.filter fun o => (UdpOut.exported false (frameOf o)).isSome
+
+theorem expo_append (a b : List Out) : expo (a ++ b) = expo a ++ expo b := List.filter_append ..
+
+theorem expo_none (l : List Out) (h : ∀ o ∈ l, UdpOut.exported false (frameOf o) = none) : expo l = [] := by
+  unfold expo
+  rw [List.filter_eq_nil_iff]
+  intro o ho; simp [h o ho]
+
+/-- the captured frame `p` carries the datagram `d` -/
+structure CarriesM (c : QConn) (w : DgM → Bytes) (p : MainLoop.Pkt) (d : DgM) : Prop where
+  payload : p.payload = w d
+  ts : (info p.tag).ts = d.ts
+  dir : (p.src == c.client) = !d.srv
+
+theorem noOut_wo (o : List Out) (s : St Tls) : noOut (wo o s) = noOut s := rfl
+
+theorem mix_feed_step (hl : H.Lawful) (kl : List Keylog.Key) (L : SealLaws Pc) (dcid0 cr csel ch sh ca sa : Bytes)
+    (early : Option Bytes) (sel : SuiteSel) (hsel : selectSuite csel = some sel) (hkl : KeylogHas kl cr ch sh ca sa early)
+    (ho : (hashOf H sel.hash).outLen < 65536)
+    (hsa : sa.length = (hashOf H sel.hash).outLen) (hca : ca.length = (hashOf H sel.hash).outLen)
+    (t : Trk) (d : DgM) (hok : MixDgOk maskFn H Pc L dcid0 sel sh ch sa ca t d) (rest : List CryptoIn)
+    (c : QConn) (hr : c.raised = none)
+    (hst : HsSt H dcid0 sel ch sh ca sa t.keyed (feedPre H (params H Pc kl) (noOut c.st) d.dcid (sver d.ver)) t.tc t.ts
+      t.cc t.sc t.core)
+    (htr : PTrace cr csel t.core (insOf d.longs ++ rest)) (p : MainLoop.Pkt)
+    (hcar : CarriesM info c (DgM.wire H Pc L dcid0 sel sh ch sa ca) p d) :
+    let c' := (quicMachine maskFn H Pc info).feed c kl p d.dcid d.ver
+    c'.raised = none ∧
+    HsSt H dcid0 sel ch sh ca sa (t.dgm d).keyed (noOut c'.st) (t.dgm d).tc (t.dgm d).ts (t.dgm d).cc (t.dgm d).sc
+      (t.dgm d).core ∧
+    PTrace cr csel (t.dgm d).core rest ∧
+    expo c'.st.out = expo c.st.out ++ expo d.shortOut ∧
+    c'.opts = c.opts ∧ c'.server = c.server ∧ c'.client = c.client ∧ c'.serverMac = c.serverMac ∧
+    c'.clientMac = c.clientMac ∧ c'.ipv6 = c.ipv6 := by
+  obtain ⟨w1, w2, w3⟩ := hcar
+  obtain ⟨a1, a2, a3, J, a4, a5⟩ := mix_dg_step maskFn H Pc hl kl L dcid0 cr csel ch sh ca sa early sel hsel hkl ho hsa hca t d
+    hok rest (noOut c.st) hst htr
+  generalize hr0 : handleDatagram maskFn H (params H Pc kl) (noOut c.st) (!d.srv) d.dcid (sver d.ver) d.ts
+    (d.wire H Pc L dcid0 sel sh ch sa ca) = r0 at a1 a2 a5
+  have hfeed : (quicMachine maskFn H Pc info).feed c kl p d.dcid d.ver =
+      { c with st := wo c.st.out r0.1, raised := r0.2 } := by
+    simp only [quicMachine, hr]
+    rw [w1, w2, w3]
+    have hw : handleDatagram maskFn H (params H Pc kl) c.st (!d.srv) d.dcid (sver d.ver) d.ts
+        (d.wire H Pc L dcid0 sel sh ch sa ca) = (wo c.st.out r0.1, r0.2) := by
+      conv => lhs; rw [← wo_noOut c.st]
+      rw [handleDatagram_wo, hr0]
+    rw [hw]
+  intro c'
+  have hc' : c' = { c with st := wo c.st.out r0.1, raised := r0.2 } := hfeed
+  rw [hc']
+  refine ⟨a1, ?_, a3, ?_, rfl, rfl, rfl, rfl, rfl, rfl⟩
+  · show HsSt H dcid0 sel ch sh ca sa _ (noOut (wo c.st.out r0.1)) _ _ _ _ _
+    rw [noOut_wo]; exact a2
+  · show expo (c.st.out ++ r0.1.out) = _
+    rw [a5, expo_append, expo_append, expo_none J a4, List.nil_append]
+
+
+/-- the interleaved history through the main loop's calls -/
+def mixFeedAll (QM : MainLoop.QuicMachine Keylog.Key QConn Pipeline.OutPkt) (c : QConn) :
+    List (List Keylog.Key × MainLoop.Pkt × DgM) → QConn
+  | [] => c
+  | (kl, p, d) :: rest => mixFeedAll QM (QM.feed c kl p d.dcid d.ver) rest
+
+/-- every datagram against the bookkeeping after the previous ones -/
+def MixDgs (L : SealLaws Pc) (dcid0 : Bytes) (sel : SuiteSel) (sh ch sa ca : Bytes) : Trk → List DgM → Prop
+  | _, [] => True
+  | t, d :: ds => MixDgOk maskFn H Pc L dcid0 sel sh ch sa ca t d ∧ MixDgs L dcid0 sel sh ch sa ca (t.dgm d) ds
+
+def _root_.TLX.Props.C02Capstone.Trk.runM (t : Trk) (ds : List DgM) : Trk := ds.foldl Trk.dgm t
+
+/-- the CRYPTO inputs of the history, in processing order -/
+def allInsM (ds : List DgM) : List CryptoIn := ds.flatMap fun d => insOf d.longs
+
+/-- the 1-RTT packets of the history, in capture order -/
+def shortsOf (ds : List DgM) : List Dg1 := ds.filterMap (·.short)
+
+theorem shortOut_flatMap (ds : List DgM) :
+    ds.flatMap DgM.shortOut = (shortsOf ds).flatMap fun d => expectedOf .rtt1 d.x := by
+  induction ds with
+  | nil => rfl
+  | cons d ds ih =>
+    simp only [List.flatMap_cons, shortsOf, List.filterMap_cons] at ih ⊢
+    cases h : d.short with
+    | none => simp [DgM.shortOut, h, ih]
+    | some o => simp [DgM.shortOut, h, ih]
+
+theorem mix_feed_rest (hl : H.Lawful) (L : SealLaws Pc) (dcid0 cr csel ch sh ca sa : Bytes)
+    (early : Option Bytes) (sel : SuiteSel) (hsel : selectSuite csel = some sel)
+    (ho : (hashOf H sel.hash).outLen < 65536)
+    (hsa : sa.length = (hashOf H sel.hash).outLen) (hca : ca.length = (hashOf H sel.hash).outLen)
+    (items : List (List Keylog.Key × MainLoop.Pkt × DgM)) (hkl : ∀ x ∈ items, KeylogHas x.1 cr ch sh ca sa early)
+    (t : Trk) (c : QConn) (hr : c.raised = none)
+    (hst : HsSt H dcid0 sel ch sh ca sa t.keyed (noOut c.st) t.tc t.ts t.cc t.sc t.core)
+    (hok : MixDgs maskFn H Pc L dcid0 sel sh ch sa ca t (items.map (·.2.2)))
+    (htr : PTrace cr csel t.core (allInsM (items.map (·.2.2))))
+    (hcar : ∀ x ∈ items, CarriesM info c (DgM.wire H Pc L dcid0 sel sh ch sa ca) x.2.1 x.2.2) :
+    let c' := mixFeedAll (quicMachine maskFn H Pc info) c items
+    let t' := t.runM (items.map (·.2.2))
+    c'.raised = none ∧ HsSt H dcid0 sel ch sh ca sa t'.keyed (noOut c'.st) t'.tc t'.ts t'.cc t'.sc t'.core ∧
+    expo c'.st.out = expo c.st.out ++ expo ((items.map (·.2.2)).flatMap DgM.shortOut) ∧
+    c'.opts = c.opts ∧ c'.server = c.server ∧ c'.client = c.client ∧ c'.serverMac = c.serverMac ∧
+    c'.clientMac = c.clientMac ∧ c'.ipv6 = c.ipv6 := by
+  induction items generalizing t c with
+  | nil => exact ⟨hr, hst, by simp [mixFeedAll, expo], rfl, rfl, rfl, rfl, rfl, rfl⟩
+  | cons it rest ih =>
+    obtain ⟨kl, p, d⟩ := it
+    obtain ⟨hd, hds⟩ := hok
+    have htr' : PTrace cr csel t.core (insOf d.longs ++ allInsM (rest.map (·.2.2))) := by
+      simpa [allInsM, List.flatMap_cons] using htr
+    have hpre : feedPre H (params H Pc kl) (noOut c.st) d.dcid (sver d.ver) = noOut c.st :=
+      feedPre_mixed H _ dcid0 _ hst.inv d
+    obtain ⟨b1, b2, b3, b4, b5, b6, b7, b8, b9, b10⟩ := mix_feed_step maskFn H Pc info hl kl L dcid0 cr csel ch sh ca sa early
+      sel hsel (hkl (kl, p, d) (List.mem_cons_self ..)) ho hsa hca t d hd _ c hr (by rw [hpre]; exact hst) htr' p
+      (hcar (kl, p, d) (List.mem_cons_self ..))
+    obtain ⟨i1, i2, i3, i4, i5, i6, i7, i8, i9⟩ := ih (fun x hx => hkl x (List.mem_cons_of_mem _ hx)) (t.dgm d) _ b1 b2 hds b3
+      (fun x hx => by
+        obtain ⟨u1, u2, u3⟩ := hcar x (List.mem_cons_of_mem _ hx)
+        exact ⟨u1, u2, by rw [b7]; exact u3⟩)
+    refine ⟨i1, i2, ?_, i4.trans b5, i5.trans b6, i6.trans b7, i7.trans b8, i8.trans b9, i9.trans b10⟩
+    show expo (mixFeedAll _ _ rest).st.out = _
+    rw [i3, b4]
+    simp only [List.map_cons, List.flatMap_cons, expo_append, List.append_assoc]
+
+end MixedFeed
+
+section Interleaved
+variable (maskFn : Dissect.MaskFn) (H : Crypto.Prims) (Pc : Cipher.Prims) (info : Nat → Pipeline.Info)
+open TLX.Quic.UdpOut TLX.Props.C02Out
+
+theorem est_of_noOut (kl : List Keylog.Key) (sel : SuiteSel) (v : Version) (k0 : AppKeys) (hpC hpS : Bytes) (chacha : Bool)
+    (s : St Tls) (gc gs lc ls : Nat) (cc sc : List Bytes)
+    (h : Est H Pc kl sel v k0 hpC hpS chacha (noOut s) gc gs lc ls cc sc) :
+    Est H Pc kl sel v k0 hpC hpS chacha s gc gs lc ls cc sc := by
+  obtain ⟨⟨⟨a1, a2, a3, a4, a5, a6, a7⟩, b1, b2, b3⟩, c1, c2, c3, c4, c5, c6, c7⟩ := h
+  exact ⟨⟨⟨a1, a2, a3, a4, a5, a6, a7⟩, b1, b2, b3⟩, c1, c2, c3, c4, c5, c6, c7⟩
+
+theorem filter_map_frameOf (l : List Out) :
+    (l.map frameOf).filter (fun f => (exported false f).isSome) = (expo l).map frameOf := by
+  unfold expo
+  induction l with
+  | nil => rfl
+  | cons o l ih =>
+    simp only [List.map_cons, List.filter_cons]
+    split <;> simp [ih]
+
+/-- `build` looks at the exported frames only -/
+theorem build_congr (a b : List Out) (h : expo a = expo b) :
+    build false (a.map frameOf) = build false (b.map frameOf) := by
+  rw [build_eq_runs, build_eq_runs, filter_map_frameOf, filter_map_frameOf, h]
+
+/-- **C02 for a whole connection as ONE interleaved history.** From a fresh session:
+    * `d0 :: itemsA` — datagrams of coalesced packets of several levels (`DgM`: Initial / Handshake packets, optionally
+      closed by a 1-RTT packet), both directions interleaved in any way — in particular 1-RTT data of the server before the
+      client's Finished, 1-RTT packets coalesced behind Handshake packets — under `MixDgs`: the conditions of
+      `quic_handshake_establishes` for the long-header packets (`HsPkOk`), and for a 1-RTT packet: it comes after the
+      ServerHello was captured (`keyed`; the tool derives ALL keys, also the 1-RTT keys, when the CRYPTO stream completes
+      the ServerHello, provided the key log has the connection's lines), it is still in key generation 0, it carries the
+      datagram's Destination Connection ID, packet number in the RFC window, no CRYPTO frames;
+    * then `itemsB` — 1-RTT datagrams only (`Send1`: any key updates).
+    Nothing raises, and the export without `-a` is exactly one UDP frame per DATAGRAM whose 1-RTT packet carried STREAM
+    data, in capture order, with that data, the datagram's capture time and direction. -/
+theorem quic_connection_exact_interleaved (hl : H.Lawful) (h32 : H.sha256.outLen = 32) (L : SealLaws Pc)
+    (cr csel ch sh ca sa : Bytes) (early : Option Bytes) (sel : SuiteSel) (hsel : selectSuite csel = some sel)
+    (ho : (hashOf H sel.hash).outLen < 65536)
+    (hsa : sa.length = (hashOf H sel.hash).outLen) (hca : ca.length = (hashOf H sel.hash).outLen)
+    (kl0 : List Keylog.Key) (p0 : MainLoop.Pkt) (d0 : DgM) (itemsA : List (List Keylog.Key × MainLoop.Pkt × DgM))
+    (hkl : ∀ x ∈ (kl0, p0, d0) :: itemsA, KeylogHas x.1 cr ch sh ca sa early)
+    (c : QConn) (hc : Fresh H Pc c) (hd0 : d0.longs ≠ [])
+    (hok : MixDgs maskFn H Pc L d0.dcid sel sh ch sa ca trk0 (d0 :: itemsA.map (·.2.2)))
+    (htr : PTrace cr csel {} (allInsM (d0 :: itemsA.map (·.2.2))))
+    (hcar : ∀ x ∈ (kl0, p0, d0) :: itemsA, CarriesM info c (DgM.wire H Pc L d0.dcid sel sh ch sa ca) x.2.1 x.2.2)
+    (hkeyed : (trk0.runM (d0 :: itemsA.map (·.2.2))).keyed = true)
+    (itemsB : List (List Keylog.Key × MainLoop.Pkt × Dg1))
+    (hcarB : ∀ x ∈ itemsB, Carries info c
+      (wireOf H Pc L sel .v1 (rfcGen (hashOf H sel.hash) sel.keyLen sa ca 0)) x.2.1 x.2.2)
+    (hsend : Send1 maskFn H Pc L sel .v1 (rfcGen (hashOf H sel.hash) sel.keyLen sa ca 0)
+      (quicHp (hashOf H sel.hash) ca sel.keyLen) (quicHp (hashOf H sel.hash) sa sel.keyLen)
+      (chachaOf (trk0.runM (d0 :: itemsA.map (·.2.2))).core) 0 0
+      (trk0.runM (d0 :: itemsA.map (·.2.2))).tc.app (trk0.runM (d0 :: itemsA.map (·.2.2))).ts.app
+      (trk0.runM (d0 :: itemsA.map (·.2.2))).cc (trk0.runM (d0 :: itemsA.map (·.2.2))).sc (itemsB.map (·.2.2)))
+    (htimes : ((shortsOf (d0 :: itemsA.map (·.2.2)) ++ itemsB.map (·.2.2)).map fun d => (d.x.ts, d.x.srv)).Pairwise (· ≠ ·)) :
+    let QM := quicMachine maskFn H Pc info
+    let c1 := mixFeedAll QM c ((kl0, p0, d0) :: itemsA)
+    (feedAll QM c1 itemsB).raised = none ∧
+    QM.out false (feedAll QM c1 itemsB) = expectedOut c (shortsOf (d0 :: itemsA.map (·.2.2)) ++ itemsB.map (·.2.2)) := by
+  intro QM c1
+  obtain ⟨hfresh, hr⟩ := hc
+  obtain ⟨hm0, hms⟩ := hok
+  have hv0 : sver d0.ver = .v1 := by unfold DgM.ver; rw [if_neg hd0]; rfl
+  have hno : noOut c.st = c.st := by rw [hfresh]; rfl
+  have hpre : HsSt H d0.dcid sel ch sh ca sa trk0.keyed (feedPre H (params H Pc kl0) (noOut c.st) d0.dcid (sver d0.ver))
+      trk0.tc trk0.ts trk0.cc trk0.sc trk0.core := by
+    rw [hno, hfresh, hv0]; exact feedPre_fresh H Pc kl0 h32 d0.dcid sel ch sh ca sa
+  have htr' : PTrace cr csel trk0.core (insOf d0.longs ++ allInsM (itemsA.map (·.2.2))) := by
+    simpa [allInsM, List.flatMap_cons, trk0] using htr
+  obtain ⟨b1, b2, b3, b4, b5, b6, b7, b8, b9, b10⟩ := mix_feed_step maskFn H Pc info hl kl0 L d0.dcid cr csel ch sh ca sa early
+    sel hsel (hkl (kl0, p0, d0) (List.mem_cons_self ..)) ho hsa hca trk0 d0 hm0 _ c hr hpre htr' p0
+    (hcar (kl0, p0, d0) (List.mem_cons_self ..))
+  obtain ⟨i1, i2, i3, i4, i5, i6, i7, i8, i9⟩ := mix_feed_rest maskFn H Pc info hl L d0.dcid cr csel ch sh ca sa early sel hsel
+    ho hsa hca itemsA (fun x hx => hkl x (List.mem_cons_of_mem _ hx)) (trk0.dgm d0) _ b1 b2 hms b3
+    (fun x hx => by
+      obtain ⟨u1, u2, u3⟩ := hcar x (List.mem_cons_of_mem _ hx)
+      exact ⟨u1, u2, by rw [b7]; exact u3⟩)
+  have hc1 : c1 = mixFeedAll QM (QM.feed c kl0 p0 d0.dcid d0.ver) itemsA := rfl
+  have ht1 : trk0.runM (d0 :: itemsA.map (·.2.2)) = (trk0.dgm d0).runM (itemsA.map (·.2.2)) := rfl
+  rw [ht1] at hkeyed hsend
+  rw [← hc1] at i1 i2 i3 i4 i5 i6 i7 i8 i9
+  rw [hkeyed] at i2
+  have hest := est_of_noOut H Pc [] _ _ _ _ _ _ _ _ _ _ _ _ _
+    (est_of_hsSt H Pc [] _ sel ch sh ca sa _ _ _ _ _ _ i2)
+  have hk := keysWf_rfc H hl Pc [] csel sel hsel .v1 ho sa ca hsa hca
+  have e3 : c1.opts = c.opts := i4.trans b5
+  have e4 : c1.server = c.server := i5.trans b6
+  have e5 : c1.client = c.client := i6.trans b7
+  have e6 : c1.serverMac = c.serverMac := i7.trans b8
+  have e7 : c1.clientMac = c.clientMac := i8.trans b9
+  have e8 : c1.ipv6 = c.ipv6 := i9.trans b10
+  obtain ⟨f1, f2, f3, f4, f5, f6, f7, f8, _⟩ := feedAll_exact maskFn H Pc info [] L sel .v1 _ _ _ _ hk itemsB c1
+    0 0 _ _ _ _ i1 hest
+    (fun x hx => by
+      obtain ⟨u1, u2, u3⟩ := hcarB x hx
+      exact ⟨u1, u2, by rw [e5]; exact u3⟩) hsend
+  refine ⟨f1, ?_⟩
+  -- the exported part of the output buffer
+  have hexpo : expo (feedAll QM c1 itemsB).st.out =
+      expo ((shortsOf (d0 :: itemsA.map (·.2.2)) ++ itemsB.map (·.2.2)).flatMap fun d => expectedOf .rtt1 d.x) := by
+    rw [f2, expo_append, i3, b4]
+    have hc0 : expo c.st.out = [] := by rw [hfresh]; rfl
+    rw [hc0, List.nil_append, ← expo_append, ← expo_append]
+    congr 1
+    rw [List.flatMap_append, ← shortOut_flatMap]
+    simp only [List.flatMap_cons, List.append_assoc]
+  show connOut false (feedAll QM c1 itemsB) = _
+  rw [connOut_eq, addressed_congr c _ (f3.trans e3) (f4.trans e4) (f5.trans e5) (f6.trans e6) (f7.trans e7) (f8.trans e8),
+    build_congr _ _ hexpo]
+  have hframes : ∀ ds : List Dg1, (ds.flatMap fun d => expectedOf .rtt1 d.x).map frameOf =
+      framesOf (ds.map fun d => inDg d.x) := by
+    intro ds
+    induction ds with
+    | nil => rfl
+    | cons d ds ih =>
+      simp only [List.flatMap_cons, List.map_append, List.map_cons, framesOf] at ih ⊢
+      rw [ih, inDg_frames]
+  have hdist : DistinctKeys ((shortsOf (d0 :: itemsA.map (·.2.2)) ++ itemsB.map (·.2.2)).map fun d => inDg d.x) := by
+    unfold DistinctKeys
+    rw [List.map_map]
+    exact htimes
+  rw [hframes _, build_groups false _ (hdist.adjacent false)]
+  exact out_tail c _
+
+end Interleaved
 end TLX.Props.C02Capstone3
